@@ -74,8 +74,32 @@ class Check(object):
         self.assumptions = []
 
     def add(self, rr):
+        if getattr(rr, 'placeholder', False):
+            return rr           # (stands for a rule that could not be decided: the deferral has been recorded by call())
         self.results.append(rr)
         return rr
+
+    def call(self, func, *args, **kwargs):
+        """func(*args) -> RuleResult for callers that relabel / filter the result before adding it.  A rule that cannot be decided is
+        deferred exactly as in run_rule; the caller gets an empty placeholder that add() ignores."""
+        box = []
+
+        def wrapped():
+            r = func(*args, **kwargs)
+            box.append(r)
+            return RuleResult('?', 'placeholder')
+        wrapped.__name__ = getattr(func, '__name__', 'rule')
+        res = self.results
+        self.results = []
+        try:
+            self.run_rule(wrapped)
+        finally:
+            self.results = res
+        if box:
+            return box[0]
+        ph = RuleResult('?', 'rule that could not be decided')
+        ph.placeholder = True
+        return ph
 
     def run_rule(self, func, *args, **kwargs):
         """Run one rule; an AnalysisError (anchor vanished / unmodelled idiom) is deferred so that violations
